@@ -147,6 +147,23 @@ func runNumBirth(p *core.Prog) *core.Result {
 			// idiom 2: inside the canonicaliser — same value was rejected by floatToInt
 			if ok, why := rejectedByFloatToInt(operand, in, floatToInt); ok {
 				res.OK(key, pos, why)
+				// NaN is a single value in ECMAScript but 2^53 bit patterns in Go, and
+				// valueFloat.hash uses the bits: a float of unknown provenance becomes a valueFloat
+				// only after math.IsNaN(operand) was tested (and answered by the _NaN singleton)
+				nanKey := key + ":NaN-canonical"
+				nanOK := false
+				for _, cp := range core.ControllingConds(in.Block()) {
+					if c, ok := cp.Cond.(*ssa.Call); ok && !cp.Pol {
+						if sc := c.Call.StaticCallee(); sc != nil && sc.Pkg != nil && sc.Pkg.Pkg.Path() == "math" && sc.Name() == "IsNaN" && len(c.Call.Args) == 1 && c.Call.Args[0] == operand {
+							nanOK = true
+						}
+					}
+				}
+				if nanOK {
+					res.OK(nanKey, pos, "born only when !math.IsNaN(operand)")
+				} else {
+					res.Bad(nanKey, pos, "a computed float becomes a valueFloat without a math.IsNaN test: NaNs with different payloads (Inf-Inf, Math.sqrt(-1), a Go NaN, typed-array reads) keep their bits, valueFloat.hash differs from the NaN literal's and Map/Set treat them as different keys")
+				}
 				return
 			}
 			res.Bad(key, pos, fmt.Sprintf("valueFloat born from %s without canonicalisation: an integral result in ±2^53 (or +0) would not be SameValue/=== /Map-key equal to the same number held as valueInt; use floatToValue", operand.Type()))
